@@ -108,6 +108,23 @@ TEXT["C17"] = dict(
           "(labelled native_bounded in the evidence, never counted as proved); the acceptance probability itself is not decided."),
 )
 
+TEXT["C08"] = dict(
+    category="other",
+    technique="Verus contracts on the real Configuration::optimize_with / optimize + bounded native determinism runs of the shipped templates",
+    text=("Configuration::optimize_with and optimize are extracted verbatim and proved (unbounded, for an arbitrary user initialiser, "
+          "configuration and problem): the state handed to run() is exactly the state the initialiser left if it contains a generator "
+          "- a generator supplied by the user is never replaced - and otherwise that state plus ONE default generator; optimize starts "
+          "from Log + default generator + Populations + the supplied evaluator under the Global identifier. The remaining clauses are "
+          "2-safety / schedule properties that no function-level contract decides: they are covered ONLY by a bounded native run "
+          "(19 shipped templates x 2 seeds: two sequential runs, a cloned configuration and three parallel-evaluator runs must give "
+          "the identical final population stack, best individual, counters and log; generator and child-generator streams are "
+          "deterministic in the seed and distinct)."),
+    note=("Level 'other': everything except the 'never replaced' clause rests on a bounded native run (native_bounded in the evidence, never "
+          "counted as proved); thread schedules are only those rayon happens to produce. Trusted: State::insert/contains mirror (C01 "
+          "contracts), Configuration::run contract (C03 unit), Random::default() modelled as one unknown value per execution."),
+    design_ref="DESIGN.md §6a (C08 was planned as not applicable; the contract-shaped clause turned out to be within Verus' reach)",
+)
+
 
 # ---- session-3 refinements, applied to the assembled strings (each `old` must occur: a stale patch is an error)
 _PATCHES = {
